@@ -106,7 +106,7 @@ def main():
     if args:
         vids = [v for v in vids if any(v.startswith(a) for a in args)]
     total = alarms = 0
-    with ThreadPoolExecutor(max_workers=5) as ex:
+    with ThreadPoolExecutor(max_workers=int(os.environ.get("NEUTRAL_WORKERS", "5"))) as ex:
         for vid, bad, msg in ex.map(one, vids):
             if bad is None:
                 print(f"{vid:10} {msg}")
